@@ -664,6 +664,39 @@ def fam_c09():
         add("return-then-deferred-store-toplevel-" + nm, rpre + [Defer(ACall(Fn([], [store, P(50), Ret(I(0))]))), P(40), Ret(place)])
         add("return-then-deferred-store-five-" + nm, rpre + [FnStmt("pop", ["a", "b", "c", "d", "e"], [Defer(ACall(Fn([], [store, Ret(I(0))]))), Ret(place)]), P(Call("pop", I(1), I(2), I(3), I(4), I(5))), P(place), Ret(I(0))])
         add("return-then-deferred-store-named-" + nm, rpre + [FnStmt("st", [], [store, Ret(I(0))]), FnStmt("pop", [], [Defer(Call("st")), Ret(place)]), P(Call("pop")), P(place), Ret(I(0))])
+    # an error raised by the HEADER of a construct (condition, subject, case value, iterable, init / post of a C-style loop): none of the construct's blocks runs --
+    # not the else block, not a later case, not the default -- and nothing after the construct either
+    fails = {"rterr": Id("zz"), "thr": Call("boom"), "idx": Idx(L(I(1)), I(5)), "thrarg": Bin("+", PV(30, I(1)), Call("boom"))}
+    def sites(fe):
+        return {
+            "if": [If(fe, [P(1)], elifs=[(B(True), [P(2)])], els=[P(3)])],
+            "if-noelse": [If(fe, [P(1)])],
+            "elif-else": [If(B(False), [P(1)], elifs=[(fe, [P(2)])], els=[P(3)])],
+            "elif-noelse": [If(B(False), [P(1)], elifs=[(fe, [P(2)])])],
+            "elif2-else": [If(B(False), [P(1)], elifs=[(I(0), [P(2)]), (fe, [P(4)])], els=[P(3)])],
+            "elif1of2-else": [If(NIL, [P(1)], elifs=[(fe, [P(2)]), (B(True), [P(4)])], els=[P(3), P(5)])],
+            "elif-else-call": [If(B(False), [P(1)], elifs=[(fe, [P(2)])], els=[E(Call("p", Id("q9"))), P(3)])],
+            "elif-else-let": [If(B(False), [P(1)], elifs=[(fe, [P(2)])], els=[Let("y9", Id("q9")), P(Id("y9"))])],
+            "while": [While(fe, [P(1), BRK])],
+            "cfor-init": [CFor(Let("i", fe), Bin("<", Id("i"), I(2)), Inc("i"), [P(1)])],
+            "cfor-cond": [CFor(Let("i", I(0)), Bin("<", Id("i"), fe), Inc("i"), [P(1)])],
+            "cfor-post": [CFor(Let("i", I(0)), Bin("<", Id("i"), I(2)), fe, [P(1)])],
+            "forin": [ForIn("v", fe, [P(1)])],
+            "switch-subject": [Switch(fe, [([I(1)], [P(1)])], d=[P(2)])],
+            "switch-case1": [Switch(I(1), [([fe], [P(1)]), ([I(1)], [P(2)])], d=[P(3)])],
+            "switch-case2": [Switch(I(1), [([I(0)], [P(1)]), ([fe, I(1)], [P(2)])], d=[P(3)])],
+            "switch-case-nodefault": [Switch(I(1), [([I(0)], [P(1)]), ([fe], [P(2)]), ([I(1)], [P(4)])])],
+            "tern": [P(Tern(fe, I(1), I(2)))],
+            "tern-in-cond": [If(Tern(fe, B(True), B(False)), [P(1)], els=[P(3)])],
+        }
+    boom = FnStmt("boom", [], [P(90), Throw(S("boom"))])
+    for fnm, fe in fails.items():
+        for snm, st in sites(fe).items():
+            pre = [boom, Let("q9", I(9))]
+            add("header-%s-%s-top" % (snm, fnm), pre + st + [P(50), Ret(I(0))])
+            add("header-%s-%s-try" % (snm, fnm), pre + [Try(st + [P(50)], "e", [P(60)], f=[P(61)]), P(62), Ret(I(0))])
+            add("header-%s-%s-fn" % (snm, fnm), pre + [FnStmt("f", [], [Defer(Call("p", I(70)))] + st + [P(50), Ret(I(1))]), Try([P(Call("f")), P(51)], "e", [P(60)]), P(62), Ret(I(0))])
+            add("header-%s-%s-loop" % (snm, fnm), pre + [Try([ForIn("w", L(I(1), I(2)), [P(Id("w"))] + st + [P(50)])], "e", [P(60)]), P(62), Ret(I(0))])
     return out
 
 
